@@ -1,6 +1,7 @@
 //! Correspondence harness: runs portus (path dependency on /repo's working tree) on generated
 //! inputs and prints canonical `cmd \t arg \t result` lines.  One PRNG (splitmix64) seeded
 //! from the command line drives every choice, so runs replay exactly.
+mod apiorder;
 mod conc;
 mod cursor;
 mod dp;
@@ -41,6 +42,7 @@ fn main() {
         "c06" => dp::run_c06(&tier, seed, &mut out),
         "c17" => conc::run_c17(&tier, seed, &mut out),
         "c19" => conc::run_c19(&tier, seed, &mut out),
+        "apiorder" => apiorder::run_apiorder(&mut out),
         // re-evaluate given cases (corpus / replay / shrinking): stdin lines `cmd \t arg [\t ...]`
         "eval" => {
             let stdin = std::io::stdin();
